@@ -505,14 +505,30 @@ theorem step_exec (fuel : Nat) (ihE : PExec fuel) (ihL : PList fuel) (ihA : PAO 
     split at h
     · simp at h
     · rename_i s1 r1 he
-      obtain ⟨e1, ok1, l1⟩ := ihE fs sup lastc s s1 r1 0 0 hfs hws (Nat.le_refl 0) he
-      simp only [spec, absB_normal_pending, Bool.false_eq_true, ↓reduceIte]
-      erw [e1]
-      simp only [Option.some.injEq] at h
-      obtain ⟨e, ok, l⟩ := post_spec h L d trivial
-      simp only [absB_st, l1]
-      exact ⟨congrArg some e, ok, l⟩
-
+      cases hlp : s.lastpipe with
+      | true =>
+        -- lastpipe: the last stage runs in the current shell, at the current loop level
+        obtain ⟨e1, ok1, l1⟩ := ihE fs sup lastc s s1 r1 0 L hfs hws (Nat.zero_le _) he
+        simp only [hlp, ↓reduceIte, Option.some.injEq] at h
+        have okd : okFlow d r1.flow := by
+          revert ok1; cases r1.flow <;> simp [okFlow]
+        obtain ⟨e, ok, l⟩ := post_spec h L d okd
+        simp only [spec, absB_normal_pending, Bool.false_eq_true, ↓reduceIte, absB_st, hlp, e1,
+          absB_setLast, l1]
+        simp only [absB_pending]
+        refine ⟨?_, ok, l⟩
+        split
+        · rename_i hp
+          rw [← e, errexitCheck_pending _ _ (by simpa using hp)]
+        · rw [e]
+      | false =>
+        obtain ⟨e1, ok1, l1⟩ := ihE fs sup lastc s s1 r1 0 0 hfs hws (Nat.le_refl 0) he
+        simp only [hlp, Bool.false_eq_true, ↓reduceIte, Option.some.injEq] at h
+        simp only [spec, absB_normal_pending, Bool.false_eq_true, ↓reduceIte, absB_st, hlp]
+        erw [e1]
+        obtain ⟨e, ok, l⟩ := post_spec h L d trivial
+        simp only [absB_st, l1]
+        exact ⟨congrArg some e, ok, l⟩
   | fault k =>
     have hpop : ({ ({ s with scope := s.scope + 1 } : St) with scope := s.scope + 1 - 1 } : St) = s := by
       cases s; simp
